@@ -475,7 +475,7 @@ func TestC08_AdapterHistory(t *testing.T) {
 			ev.Excluded("KF-C08-1")
 		}
 	}()
-	runRapid(t, c08Check, tierN(3000, 100000), func(t *rapid.T) {
+	runRapid(t, c08Check, tierN(20000, 600000), func(t *rapid.T) {
 		c := genC08Case(t)
 		f, nt := evalC08(c)
 		ev.Case(c, nt, fmt.Sprintf("cleaner=%d", c.CleanerPm))
